@@ -1,7 +1,7 @@
 CONSTANTS
   MaxDepth = 1
   Shapes <- ShapesThorough
-  FullMaskSize = 6
+  FullMaskSize = 4
 SPECIFICATION Spec
 CHECK_DEADLOCK FALSE
 INVARIANT TypeOK
